@@ -24,7 +24,10 @@ Entries: `s:<hex>` = `Some(Ok(line))`, `e` = `Some(Err(_))`, `n:<dec>` = `Some(O
 `take_rewind` are the same call; the two names only label the receiver for the known finding
 D18, the reply depends on the lender alone.)
 
-`<mem|file>` (the backing store of the real lender) is ignored by the model.  For the compressed
+`<mem|file>` (the backing store of the real lender; also `path` / `fd` = the convenience
+constructors `from_path` / `from_file`) is ignored by the model.  `src iterx <kind> [..]` and
+`src take_iterx <n> <kind> [..]` are `iter` / `take_iter` over another clonable `IntoIterator`
+(`vec deque boxed btree range repeat`) holding exactly the listed items.  For the compressed
 kinds the decoder parameter of the model is instantiated by the table `{<comphex> ↦ <plainhex>}`
 of the op line: `<plainhex>` is the text the harness compressed into `<comphex>`.
 -/
@@ -105,6 +108,13 @@ def mkSrc (toks : List String) : Option LSt :=
     | some p, some c => some (.comp (CLender.new c (tableDec c p)))
     | _, _ => none
   | ["iter", xs] => (parseNatList xs).map fun xs => .iter (FromIter.from xs)
+  -- `FromIntoIterator` over another clonable `IntoIterator` (named by the second token) that holds
+  -- exactly these items: the adapter is generic, the model is the same
+  | ["iterx", _, xs] => (parseNatList xs).map fun xs => .iter (FromIter.from xs)
+  | ["take_iterx", n, _, xs] =>
+    match parseNat n, parseNatList xs with
+    | some n, some xs => some (.titer (Take.new (FromIter.from xs) n))
+    | _, _ => none
   | ["take_lines", n, _, h] =>
     match parseNat n, parseHex h with
     | some n, some b => some (.tlines (Take.new (LineLender.new b) n))
